@@ -123,6 +123,39 @@ Proof.
     destruct i as [|hrp [raw|]]; exact P.
 Qed.
 
+(** narrowing in the profile without `transparent-inputs`: the derived UIVK has exactly the
+    external IVKs of the interpreted items; nothing the UFVK merely kept is carried over *)
+Theorem narrow_nt O k i :
+  fvk_t k = None -> ufvk_to_uivk O k = Ok i ->
+  ivk_t i = None /\ ivk_unknown i = []
+  /\ to_container (uivk_items i)
+     = if is_some (fvk_s k) || is_some (fvk_o k)
+       then Ok (oapp (option_map (fun b => (2, s_fvk_ivk O b)) (fvk_s k))
+                ++ oapp (option_map (fun b => (3, o_fvk_ivk O b)) (fvk_o k)))
+       else Panic.
+Proof.
+  intros Kt. unfold ufvk_to_uivk. rewrite Kt. intros H; inversion H; subst i. cbn [ivk_t ivk_unknown].
+  split; [reflexivity|]. split; [reflexivity|].
+  rewrite uivk_container by exact I. unfold uivk_encodable, has_non_transparent, canon_items.
+  cbn [ivk_t ivk_s ivk_o ivk_unknown]. destruct (fvk_s k), (fvk_o k); reflexivity.
+Qed.
+
+Lemma b_xnarrow t k o :
+  wf_case (CExtra (XNarrowNt t k o)) = true -> run_case (CExtra (XNarrowNt t k o)) = true ->
+  prop_case (CExtra (XNarrowNt t k o)) = true.
+Proof.
+  cbn [wf_case run_case prop_case xwf xrun xprop]. intros W R.
+  repeat (apply andb_true_iff in W; destruct W as [W ?]).
+  assert (Kt : fvk_t k = None) by (destruct (fvk_t k); [discriminate | reflexivity]).
+  apply (outcome_eqb_spec _ _ items_eqb_spec unit_eqb_spec) in R. subst o.
+  unfold narrow_model, narrow_spec.
+  destruct (ufvk_to_uivk (orc_of t) k) as [i| |] eqn:E;
+    try (unfold ufvk_to_uivk in E; rewrite Kt in E; discriminate E).
+  destruct (narrow_nt (orc_of t) k i Kt E) as (_ & _ & X). rewrite X.
+  destruct (fvk_s k), (fvk_o k); cbn [is_some orb option_map oapp app negb]; try reflexivity;
+    apply (spec_refl _ items_eqb_spec).
+Qed.
+
 (* ------------------------------------------------------------------------------------------ *)
 (** * the complete bridge *)
 
@@ -141,5 +174,6 @@ Proof.
     + exact R.
     + exact (b_legacy _ W R).
     + exact (b_gap _ W R).
-    + destruct x; [exact (b_xua _ _ _ W R) | exact (b_xfvk _ _ _ _ W R) | exact (b_xivk _ _ _ _ W R)].
+    + destruct x; [exact (b_xua _ _ _ W R) | exact (b_xfvk _ _ _ _ W R) | exact (b_xivk _ _ _ _ W R)
+                  | exact (b_xnarrow _ _ _ W R)].
 Qed.
